@@ -102,7 +102,7 @@ theorem streaming (chunks : List (List UInt8)) (hlen : chunks.flatten.length < 2
     (finalize (chunks.foldl update init)).1 = Spec.sha256 chunks.flatten :=
   (digest_chunks init ((inv_nil_iff _).mp inv_init) chunks hlen).1
 
-/-- the bodies of `Sha256::Private::WriteByteBlock`, `Sha256::update`, `Sha256::finalize` and `Sha256::reset` as TRANSLATED from the
+/-- the bodies of `Sha256::Private::WriteByteBlock`, `Sha256::update`, `Sha256::finalize`, `Sha256::reset` and the static helper `Sha256::hash` as TRANSLATED from the
 current sources (`Nstd/Generated/Sha256Body.lean`: typed statement translator - locals `curBufferPos : UInt32`,
 `lenInBits : UInt64`, casts, `curBufferPos++` inside an index, `*data++`/`size--` as a walk over the input list,
 `*digest++ = …` as output bytes, `while (curBufferPos != 64 - 8)` with an iteration budget of 2^32) are the
@@ -111,8 +111,9 @@ hypothesis; for `reset`, whose eight checked writes need the eight state words t
 and every input; in particular the `while` loop never uses up its budget -/
 theorem generated_bodies_are_the_model (p : Sha) (data : List UInt8) :
     Sha256Body.WriteByteBlock p = writeByteBlock p ∧ Sha256Body.update p data = update p data ∧
-    Sha256Body.finalize p = finalize p ∧ (p.state.length = 8 → Sha256Body.reset p = reset p) :=
-  ⟨WriteByteBlock_eq p, gen_update_eq p data, gen_finalize_eq p, gen_reset_eq p⟩
+    Sha256Body.finalize p = finalize p ∧ (p.state.length = 8 → Sha256Body.reset p = reset p) ∧
+    Sha256Body.hash data = hash data :=
+  ⟨WriteByteBlock_eq p, gen_update_eq p data, gen_finalize_eq p, gen_reset_eq p, gen_hash_eq data⟩
 
 /-- hence the digest theorem for the translated code itself: every chunking, fed to the generated `update` and
 finished by the generated `finalize`, gives the FIPS digest -/
